@@ -166,8 +166,8 @@ def cases(rng, tier):
         yield {"k": "unsplit", "t": list(t)}
     for st in FIXED_STEMS:
         yield {"k": "stems", "stems": st}
-    n_mut = 6000 if tier == "quick" else 80000
-    n_misc = 3000 if tier == "quick" else 30000
+    n_mut = 30000 if tier == "quick" else 120000
+    n_misc = 10000 if tier == "quick" else 40000
     if tier == "quick":
         for _ in range(12000):
             ix = [rng.randrange(len(g)) for g in GRAMMAR]
